@@ -15,6 +15,7 @@ import (
 	"os"
 	"path/filepath"
 	"strings"
+	"sync"
 	"time"
 
 	"github.com/getlantern/golog"
@@ -44,6 +45,7 @@ type Cmd struct {
 	Lines  []map[string]interface{}   `json:"lines"`
 	Sorted bool                       `json:"sorted"`
 	Fields []string                   `json:"fields"`
+	Pause  int                        `json:"pause"`
 }
 
 type Scenario struct {
@@ -65,6 +67,14 @@ type runner struct {
 	tables  []zv.TableDef
 	entries int
 	flushCh map[string]chan struct{}
+	scans   map[string]*scan
+}
+
+// scan is a query held after some of its rows have been delivered.
+type scan struct {
+	release chan struct{}
+	done    chan struct{}
+	line    map[string]interface{}
 }
 
 func (r *runner) fail(format string, args ...interface{}) error {
@@ -330,7 +340,7 @@ func (r *runner) exec(c *Cmd) error {
 			}
 		}
 		rows, vals, _, err := r.node.ProbeRaw(sql, c.Mem, stepTimeout, raw)
-		line := map[string]interface{}{"a": "QueryResult", "t": c.T, "mem": c.Mem, "rows": rows, "fields": fields, "win": win}
+		line := map[string]interface{}{"a": "QueryResult", "t": c.T, "mem": c.Mem, "rows": rows, "fields": fields, "win": win, "held": 0}
 		if len(vals) > 0 {
 			line["vals"] = vals
 		}
@@ -341,6 +351,62 @@ func (r *runner) exec(c *Cmd) error {
 			line["err"] = err.Error()
 		}
 		ctl.Emit(line)
+	case "ScanBegin":
+		sc := &scan{release: make(chan struct{}), done: make(chan struct{})}
+		paused := make(chan struct{})
+		var once sync.Once
+		node := r.node
+		raw := map[string]bool{}
+		for _, t := range r.tables {
+			if t.Name == c.T {
+				for _, f := range t.Raw {
+					raw[f] = true
+				}
+			}
+		}
+		ctl.Emit(map[string]interface{}{"a": "ScanBegin", "t": c.T})
+		go func() {
+			rows, vals, _, err := node.ProbeHook("SELECT * FROM "+c.T, c.Mem, 6*stepTimeout, raw, func(n int) {
+				if n == c.Pause+1 {
+					once.Do(func() { close(paused) })
+					<-sc.release
+				}
+			})
+			sc.line = map[string]interface{}{"a": "QueryResult", "t": c.T, "mem": c.Mem, "rows": rows, "fields": []string{}, "win": false, "held": c.Pause + 1}
+			if rows == nil {
+				sc.line["rows"] = []zv.Row{}
+			}
+			if len(vals) > 0 {
+				sc.line["vals"] = vals
+			}
+			if err != nil {
+				sc.line["err"] = err.Error()
+			}
+			once.Do(func() { close(paused) })
+			close(sc.done)
+		}()
+		if r.scans == nil {
+			r.scans = map[string]*scan{}
+		}
+		r.scans[c.T] = sc
+		select {
+		case <-paused:
+		case <-time.After(stepTimeout):
+			return r.fail("scan of %s neither paused nor finished", c.T)
+		}
+	case "ScanEnd":
+		sc := r.scans[c.T]
+		if sc == nil {
+			return r.fail("no scan of %s in progress", c.T)
+		}
+		delete(r.scans, c.T)
+		close(sc.release)
+		select {
+		case <-sc.done:
+		case <-time.After(stepTimeout):
+			return r.fail("scan of %s did not finish", c.T)
+		}
+		ctl.Emit(sc.line)
 	case "Crash":
 		img := filepath.Join(r.scratch, fmt.Sprintf("%s.%d", r.sc.Scn, r.inc+1))
 		ctl.StepMu.Lock()
@@ -470,6 +536,10 @@ func (r *runner) run(sc *Scenario) {
 			r.ctl.Emit(map[string]interface{}{"a": "HarnessError", "scn": sc.Scn, "cmd": i, "op": sc.Cmds[i].A, "t": sc.Cmds[i].T, "err": err.Error()})
 			break
 		}
+	}
+	for t, sc := range r.scans {
+		close(sc.release)
+		delete(r.scans, t)
 	}
 	if r.node != nil {
 		if len(r.node.Panics) > 0 {
